@@ -19,7 +19,7 @@ def check_C11(ctx):
         fd.rule_fd_drop(ctx, cfg, F, model)
         ctx.rule("FD-DROP").floor("owning_fields[%s]" % cfg, 6, cfg)
         fd.rule_fd_move(ctx, cfg, F, model)
-        ctx.rule("FD-MOVE").floor("moving_reads[%s]" % cfg, 3, cfg)
+        ctx.rule("FD-MOVE").floor("moving_reads[%s]" % cfg, 1, cfg)
         fd.rule_close_owned(ctx, cfg, F, model)
         ctx.rule("FD-CLOSE-OWNED").floor("close_sites[%s]" % cfg, 6, cfg)
         fd.rule_cloexec(ctx, cfg, F, model)
@@ -111,7 +111,7 @@ def check_C16(ctx):
         decode.rule_take_once(ctx, cfg, F, D)
         ctx.rule("DECODE-TAKE-ONCE").floor("conversion_sites[%s]" % cfg, 3, cfg)
         decode.rule_result_unwrap(ctx, cfg, F)
-        ctx.rule("DECODE-RESULT-UNWRAP").floor("decode_calls[%s]" % cfg, 4, cfg)
+        ctx.rule("DECODE-RESULT-UNWRAP").floor("decode_calls[%s]" % cfg, 2, cfg)
         tls.rule_tls_restore(ctx, cfg, F)
     for cfg, F in ctx.configs(["K1", "K2"]):
         model = fd.build_model(F)
@@ -472,7 +472,7 @@ def check_C05(ctx):
         ipcl.rule_split_classify(ctx, cfg, F)
     for cfg, F in ctx.configs(["K3"]):
         ipcl.rule_shm_inproc(ctx, cfg, F)
-        ctx.rule("SHM-INPROC").floor("inproc_constructions[%s]" % cfg, 3, cfg)
+        ctx.rule("SHM-INPROC").floor("inproc_constructions[%s]" % cfg, 2, cfg)
     ctx.assume("mmap(MAP_SHARED) of the same object shows the same bytes in every mapping; ftruncate zero-fills")
 
 
